@@ -20,8 +20,8 @@ CInit(limit, offered) ==
 CRes(s, ok, why) == [s |-> s, ok |-> ok, why |-> why]
 CFail(s, why) == CRes(s, FALSE, why)
 
-\* a request (with key e.key) was written on a fresh transport; e.prevClosed: the transport of the
-\* previous attempt had been closed before
+\* a request (with key e.key) was written on a fresh transport (when the transport of the previous attempt
+\* is closed is the implementation's business; that none is left open is judged with the outcome)
 CAttempt(s, e) ==
   IF s.done THEN CFail(s, "C09.network_activity_after_outcome")
   ELSE IF s.attempts = 0 THEN CRes([s EXCEPT !.attempts = 1, !.keys = <<e.key>>, !.haveHead = FALSE], TRUE, "")
@@ -29,7 +29,6 @@ CAttempt(s, e) ==
   ELSE IF s.head.free THEN CRes([s EXCEPT !.attempts = @ + 1, !.followups = @ + 1, !.keys = Append(@, e.key), !.haveHead = FALSE], TRUE, "")
   ELSE IF ~IsRedirect(s.head) THEN CFail(s, "C09.followed_non_redirect")
   ELSE IF s.followups >= s.limit THEN CFail(s, "C09.redirect_limit_exceeded")
-  ELSE IF ~e.prevClosed THEN CFail(s, "C09.old_transport_left_open_on_redirect")
   ELSE IF e.key \in ToSet(s.keys) THEN CFail(s, "C10.key_reused")
   ELSE CRes([s EXCEPT !.attempts = @ + 1, !.followups = @ + 1, !.keys = Append(@, e.key), !.haveHead = FALSE], TRUE, "")
 
